@@ -204,6 +204,10 @@ func c11(c *Ctx) {
 	}
 	writeFiles(proj, pf)
 	writeFiles(proj2, pf2)
+	proj3 := filepath.Join(root, "proj3")
+	pf3 := map[string]string{"go.mod": goMod("c11proj3"), "magefiles/magefile.go": strings.Replace(c11Magefile, "MODULE", "c11proj3", 1),
+		"magefiles/plat_" + runtime.GOOS + ".go": platFile(runtime.GOOS, true), "tools/doc.go": "// Package tools is mage:import'ed.\npackage tools\n", "tools/tool_" + runtime.GOOS + ".go": toolFile(runtime.GOOS)}
+	writeFiles(proj3, pf3)
 	// a second go command (for -gocmd / MAGEFILE_GOCMD)
 	goWrap := filepath.Join(root, "mygo")
 	os.WriteFile(goWrap, []byte("#!/bin/sh\nexec go \"$@\"\n"), 0o755)
@@ -297,16 +301,24 @@ func c11(c *Ctx) {
 			}
 			// directories
 			p := proj
+			dsel := r.Intn(5)
 			if r.Chance(1, 3) {
 				p = proj2
 				layout = "magefilesdir"
+			} else if r.Chance(1, 5) || i == 1 {
+				// -d names a directory that is itself called "magefiles" (an ordinary directory of tagged files): the
+				// targets run there, not in its parent
+				p = filepath.Join(proj3, "magefiles")
+				layout = "d-is-magefiles"
+				dsel = 1 + r.Intn(3)
 			}
-			switch r.Intn(5) {
+			switch dsel {
 			case 0: // started inside
 				cwd = p
 			case 1: // relative -d from root
 				cwd = root
-				argv = append(argv, "-d", filepath.Base(p))
+				relp, _ := filepath.Rel(root, p)
+				argv = append(argv, "-d", relp)
 				layout += "+d-rel"
 			case 2:
 				cwd = work
@@ -314,7 +326,8 @@ func c11(c *Ctx) {
 				layout += "+d-abs"
 			case 3:
 				cwd = root
-				argv = append(argv, "-d", "./work/../"+filepath.Base(p)+"/")
+				relp, _ := filepath.Rel(root, p)
+				argv = append(argv, "-d", "./work/../"+relp+"/")
 				layout += "+d-unclean"
 			case 4:
 				cwd = p
